@@ -109,6 +109,10 @@ var stockFiles = map[string]fileSpec{
 	"/u/garbage.gb":  {Parts: []string{"NC_001422_part.gb"}, Text: "this is not a record\n"},
 	"/u/two.fasta":   {Parts: []string{"NC_001422_part.fasta"}, Text: ">second record\nACGTACGTAAACCCGGGTTT\nACGT\n"},
 	"/u/empty.gb":    {Text: ""},
+	"/u/pad4096.gb":  {Parts: []string{"pBAT5.txt"}, Edits: []editSpec{{Op: "pad-to", Len: 8192}}},
+	"/u/pad32k.gb":   {Parts: []string{"NC_001422.gb"}, Edits: []editSpec{{Op: "pad-to", Len: 32768}}},
+	"/u/pad64k.gb":   {Parts: []string{"NC_001422.gb", "NC_001422.gb"}, Edits: []editSpec{{Op: "pad-to", Len: 65536}}},
+	"/u/pad64k1.gb":  {Parts: []string{"NC_001422.gb", "NC_001422.gb"}, Edits: []editSpec{{Op: "pad-to", Len: 65537}}},
 	"/u/pre.gb":      {Prefix: preamble, Parts: []string{"NC_001422_part.gb"}},
 	"/u/pre.fasta":   {Prefix: preamble, Parts: []string{"NC_001422_part.fasta"}, Text: ">second\nACGTTGCA\n"},
 	"/u/big.gb":      {Parts: []string{"NC_001422.gb", "NC_001422.gb", "NC_001422.gb"}},
@@ -125,7 +129,8 @@ var stockFiles = map[string]fileSpec{
 
 var primaryInputs = []string{"/u/part.gb", "/u/part.gb", "/u/pbat.gb", "/u/pbat.gb", "/u/ecoli.gb", "/u/two.gb", "/u/three.gb", "/u/phix.gb",
 	"/u/part.fasta", "/u/two.fasta", "/u/phix.fasta", "/u/bad2.gb", "/u/badmid.gb", "/u/garbage.gb", "/u/empty.gb",
-	"/u/part.gb", "/u/pbat.gb", "/u/two.gb", "/u/part.fasta", "/u/two.fasta", "/u/ecoli.gb", "/u/big.gb", "/u/big.fasta"}
+	"/u/part.gb", "/u/pbat.gb", "/u/two.gb", "/u/part.fasta", "/u/two.fasta", "/u/ecoli.gb", "/u/big.gb", "/u/big.fasta",
+	"/u/pad4096.gb", "/u/pad32k.gb", "/u/pad64k.gb", "/u/pad64k1.gb"}
 
 var locators = []string{"^..$", "1..10", "3", "CDS", "gene", "@^-10..^", "$-20..$", "10..1", "source", "^", "$", "CDS@^..$", "gene/gene=A",
 	"100", "1..100", "@^..^+30", "20..40@^-5..$+5", "misc_feature", "^+5..$-5", "((("}
